@@ -5,8 +5,126 @@ import (
 	"fmt"
 	"os"
 	"os/exec"
+	"path/filepath"
+	"strconv"
 	"strings"
 )
+
+// RebuildCut copies the drive cut at byte c, rebuilds an index from it with the real
+// recovery.Index (overwrite, real callbacks) under the watchdog and returns the result class,
+// the resulting rows, and — as the C06 oracle — what is wrong with them compared with the
+// rebuild of the tape cut at the last complete item boundary before c.
+func RebuildCut(dir string, e *Env, c int64, tag int) (string, []string, []string) {
+	sub := filepath.Join(dir, fmt.Sprintf("cut%d", tag))
+	os.MkdirAll(sub, 0o755)
+	defer os.RemoveAll(sub)
+	data, _ := os.ReadFile(e.Drive)
+	if c > int64(len(data)) {
+		c = int64(len(data))
+	}
+	rebuild := func(n int64, name string) (string, []string, *Env) {
+		drive := filepath.Join(sub, name+".tar")
+		os.WriteFile(drive, data[:n], 0o644)
+		e2, err := NewEnvAt(sub, drive, filepath.Join(sub, name+".sqlite"), e.Cfg)
+		if err != nil {
+			return "other", nil, nil
+		}
+		s2 := NewSession(e2)
+		var rerr error
+		if !s2.Guard(func() { rerr = Replay(e2, true) }) {
+			return "stuck", nil, e2
+		}
+		rows, _ := e2.RowLines()
+		return ClassOf(rerr), rows, e2
+	}
+	res, rows, e2 := rebuild(c, "cut")
+	if e2 != nil {
+		defer e2.Close()
+	}
+	var msgs []string
+	if res == "stuck" {
+		return res, rows, []string{fmt.Sprintf("rebuilding the tape cut at byte %d did not terminate", c)}
+	}
+	// the last complete item boundary at or before c, by the independent scanner on the full tape
+	items, _, _ := ScanTape(e.Drive, 0)
+	boundary := int64(0)
+	var torn *TapeItem
+	for k := range items {
+		it := items[k]
+		blocks := int64(2)
+		if !it.Trailer {
+			blocks = it.HB + it.DataBlocks
+		} else if it.HB == 1 {
+			blocks = 1
+		}
+		end := (it.Block + blocks) * 512
+		if end <= c {
+			boundary = end
+		} else {
+			if !it.Trailer && c > it.Block*512 {
+				torn = &items[k]
+			}
+			break
+		}
+	}
+	bres, brows, e3 := rebuild(boundary, "boundary")
+	if e3 != nil {
+		defer e3.Close()
+	}
+	if bres != "ok" {
+		return res, rows, msgs // the complete prefix itself does not rebuild: other properties' business
+	}
+	tornName := ""
+	contentCut := false
+	if torn != nil && torn.Hdr != nil {
+		tornName = torn.Hdr.Name
+		contentCut = c >= (torn.Block+torn.HB)*512 && c < (torn.Block+torn.HB)*512+torn.Stored
+	}
+	if (res != "ok") != contentCut {
+		if contentCut {
+			msgs = append(msgs, fmt.Sprintf("cut at byte %d inside the content of %q but the rebuild reported no error", c, tornName))
+		} else {
+			msgs = append(msgs, fmt.Sprintf("cut at byte %d (not inside content) but the rebuild failed: %s", c, res))
+		}
+	}
+	// every row other than the torn record's own must be exactly as in the rebuild of the complete prefix
+	key := func(l string) string { f := strings.Split(l, "\t"); return f[1] + "\x00" + f[2] }
+	want := map[string]string{}
+	for _, l := range brows {
+		want[key(l)] = l
+	}
+	got := map[string]string{}
+	for _, l := range rows {
+		got[key(l)] = l
+	}
+	tornKeys := func(l string) bool {
+		if tornName == "" {
+			return false
+		}
+		n := DecName(strings.Split(l, "\t")[1])
+		base := strings.TrimPrefix(tornName, "/")
+		replaces := ""
+		if torn.Hdr.PAXRecords != nil {
+			replaces = strings.TrimPrefix(torn.Hdr.PAXRecords["STFS.ReplacesName"], "/")
+		}
+		n = strings.TrimPrefix(n, "/")
+		return n == base || (replaces != "" && n == replaces)
+	}
+	for k, l := range want {
+		g, ok := got[k]
+		if (!ok || g != l) && !tornKeys(l) {
+			msgs = append(msgs, fmt.Sprintf("cut at byte %d: entry %q differs from the state after the last complete record", c, DecName(strings.Split(l, "\t")[1])))
+			break
+		}
+	}
+	for k, l := range got {
+		if _, ok := want[k]; !ok && !tornKeys(l) {
+			msgs = append(msgs, fmt.Sprintf("cut at byte %d: unexpected entry %q", c, DecName(strings.Split(l, "\t")[1])))
+			break
+		}
+	}
+	return res, rows, msgs
+}
 
 // CfgLine renders the instance configuration for the Lean driver.
 func CfgLine(c Cfg) string {
@@ -30,6 +148,8 @@ type Step struct {
 	Tree  []string // tree walk through the public API (nil when not taken)
 	TreeE string   // error of the tree walk, if any
 	Res   string   // result class
+	// Directive: an event around the instance (observations are self-contained)
+	Directive bool
 	// LateWedge: the call returned, but the instance turned out to be wedged afterwards.
 	LateWedge bool
 	// OracleMsgs collects "<property>\x00<message>" from the oracles that ran after this call.
@@ -72,6 +192,19 @@ func RunHistoryB(dir string, c Cfg, id string, next func() (Call, bool), wantTre
 		if strings.HasPrefix(call.Method, "@") {
 			// directives: not calls on the instance but events around it
 			switch call.Method {
+			case "@rebuildcut":
+				// a from-scratch rebuild of a copy of the drive cut at the given byte
+				st := Step{Call: call, Env: "env\tnow=0\trecs=-"}
+				c, _ := strconv.ParseInt(call.Args[0], 10, 64)
+				res, rows, msgs := RebuildCut(dir, e, c, i)
+				st.Res = res
+				st.Obs = append([]string{"res\t" + res}, rows...)
+				for _, m := range msgs {
+					st.OracleMsgs = append(st.OracleMsgs, "C06\x00"+m)
+				}
+				st.Directive = true
+				hist.Steps = append(hist.Steps, st)
+				continue
 			case "@snapshot":
 				e.Close()
 				snapshot, _ = os.ReadFile(e.DBPath)
